@@ -5,6 +5,7 @@ import (
 	"encoding/json"
 	"fmt"
 	"os"
+	"path/filepath"
 	"regexp"
 	"strings"
 	"testing"
@@ -325,6 +326,15 @@ func init() {
 			r.Report(k, m, "C16/render", &c)
 		}
 	})
+	hx.RegisterReplayer("C16/multi", func(r *hx.Run, data json.RawMessage) {
+		var c c16Multi
+		if err := json.Unmarshal(data, &c); err != nil {
+			panic(err)
+		}
+		if k, m := checkMultiFileOutput(&c); k != "" {
+			r.Report(k, m, "C16/multi", &c)
+		}
+	})
 	hx.RegisterReplayer("C16/modes", func(r *hx.Run, data json.RawMessage) {
 		var c c16Case
 		if err := json.Unmarshal(data, &c); err != nil {
@@ -340,7 +350,7 @@ var c16Hostile = []string{"a\nb", "a\rb", "tab\there", "\x1b[31mred", "\x00", "\
 
 func TestC16(t *testing.T) {
 	hx.Main(t, "C16", func(r *hx.Run) {
-		r.Rule = "(a) renderer in isolation: arbitrary (line, column) in [-3, 2*len] and arbitrary source bytes (empty, no trailing newline, CRLF, tabs, wide/combining characters, invalid UTF-8, very long lines) through Error.PrettyPrint and GetTemplateFields; never panics, header line exact, snippet = the referenced source line, caret at the terminal cell of the reported column, nothing for a non-existent line. (b) end to end: generated workflows in which 1-6 keys/values are replaced by hostile strings (line breaks, controls, ESC, NEL/LS/PS, wide/RTL, quotes, %, %!s(, ' [x]', ']', ': 1:1: ', invalid UTF-8) so that they are echoed in messages; rendered in -oneline (with/without colour), default (with/without colour), -format '{{json .}}', a JSON-Lines template and a field-by-field template; one output line per diagnostic which the shipped problem-matcher regexp parses back to the same fields, default mode equals a reference rendering, JSON round-trips, no message contains a line break. Non-trivial: (a) existing line with column inside it; (b) >= 1 message echoing a hostile character; distinct = input hash."
+		r.Rule = "(a) renderer in isolation: arbitrary (line, column) in [-3, 2*len] and arbitrary source bytes (empty, no trailing newline, CRLF, tabs, wide/combining characters, invalid UTF-8, very long lines) through Error.PrettyPrint and GetTemplateFields; never panics, header line exact, snippet = the referenced source line, caret at the terminal cell of the reported column, nothing for a non-existent line. (b) end to end: generated workflows in which 1-6 keys/values are replaced by hostile strings (line breaks, controls, ESC, NEL/LS/PS, wide/RTL, quotes, %, %!s(, ' [x]', ']', ': 1:1: ', invalid UTF-8) so that they are echoed in messages; rendered in -oneline (with/without colour), default (with/without colour), -format '{{json .}}', a JSON-Lines template and a field-by-field template; one output line per diagnostic which the shipped problem-matcher regexp parses back to the same fields, default mode equals a reference rendering, JSON round-trips, no message contains a line break; one quarter of the workflows is also linted as one of 2-3 files of a single invocation (argument order unlike the lexical order): the printed records are the returned diagnostics in the returned order. Non-trivial: (a) existing line with column inside it; (b) >= 1 message echoing a hostile character; distinct = input hash."
 		r.Assumptions = []string{"terminal cell width of a prefix is computed with go-runewidth (the de-facto standard East-Asian-width table); reported columns are byte columns into the source line", "matcher: /repo/.github/actionlint-matcher.json as shipped"}
 		lineGen := rapid.OneOf(
 			rapid.SampledFrom([]string{"", "on: push", "  key: value", "\tkey:\tvalue", "name: 日本語のジョブ ${{ x }}", "e\u0301e\u0301 x", "😀 emoji: ${{ y }}", "    - run: echo 'hi'", "a\rb", "\xff\xfe bad utf8", strings.Repeat("x", 70000), " ", "\u202eabc"}),
@@ -450,8 +460,101 @@ func TestC16(t *testing.T) {
 			if k != "" {
 				r.Fail(rt, k, m, "C16/modes", c)
 			}
+			// the same workflow as one of several files of one invocation (argument order is not the
+			// lexical order of the names): what is printed is what is returned, in the same order
+			if rapid.IntRange(0, 3).Draw(rt, "multifile") == 0 {
+				mc := &c16Multi{Names: rapid.SampledFrom([][]string{{"b.yml", "a.yml"}, {"z.yml", "m.yml", "a.yml"}, {"sub/x.yml", "a.yml", "sub/b.yml"}, {"a.yml", "b.yml"}}).Draw(rt, "names")}
+				for i := range mc.Names {
+					if i == 0 {
+						mc.Sources = append(mc.Sources, src)
+					} else {
+						mc.Sources = append(mc.Sources, rapid.SampledFrom([]string{"on: push\njobs:\n  a:\n    runs-on: zz-unknown\n    steps:\n      - run: echo ${{ github.nosuch }}\n", "on: zz\njobs:\n", "on: push\njobs:\n  a:\n    runs-on: ubuntu-latest\n    steps:\n      - run: echo\n", src}).Draw(rt, "othersrc"))
+					}
+				}
+				r.Eval()
+				r.Class("modes/several-files-in-one-invocation")
+				if k, m := checkMultiFileOutput(mc); k != "" {
+					r.Fail(rt, k, m, "C16/multi", mc)
+				}
+			}
 		})
 	})
+}
+
+type c16Multi struct {
+	Names   []string `json:"names"`
+	Sources []string `json:"sources"`
+}
+
+// checkMultiFileOutput: LintFiles over several files; the header lines (oneline) and the JSON records
+// are the returned diagnostics, in the returned order.
+func checkMultiFileOutput(c *c16Multi) (key, msg string) {
+	dir, err := os.MkdirTemp("", "c16multi")
+	if err != nil {
+		return "harness/c16-tempdir", err.Error()
+	}
+	defer os.RemoveAll(dir)
+	var paths []string
+	for i, n := range c.Names {
+		p := filepath.Join(dir, n)
+		os.MkdirAll(filepath.Dir(p), 0o755)
+		if err := os.WriteFile(p, []byte(c.Sources[i]), 0o644); err != nil {
+			return "harness/c16-tempdir", err.Error()
+		}
+		paths = append(paths, p)
+	}
+	for _, mode := range []string{"oneline", "json"} {
+		opts := al.LinterOptions{Oneline: true, Color: al.ColorOptionKindNever, WorkingDir: dir}
+		if mode == "json" {
+			opts = al.LinterOptions{Format: "{{json .}}", WorkingDir: dir}
+		}
+		var buf bytes.Buffer
+		var errs []*al.Error
+		var ferr error
+		var pan any
+		func() {
+			defer func() { pan = recover() }()
+			l, e := al.NewLinter(&buf, &opts)
+			if e != nil {
+				ferr = e
+				return
+			}
+			errs, ferr = l.LintFiles(paths, nil)
+		}()
+		if pan != nil || ferr != nil {
+			return "C16/panic-or-fatal:several-files", fmt.Sprintf("%v %v", pan, ferr)
+		}
+		var want, got []string
+		for _, e := range errs {
+			want = append(want, fmt.Sprintf("%s:%d:%d", e.Filepath, e.Line, e.Column))
+		}
+		if mode == "json" {
+			var fs []al.ErrorTemplateFields
+			if buf.Len() > 0 {
+				if err := json.Unmarshal(buf.Bytes(), &fs); err != nil {
+					return "C16/json-output-invalid(several-files)", fmt.Sprintf("%v\n%q", err, buf.String())
+				}
+			}
+			for _, f := range fs {
+				got = append(got, fmt.Sprintf("%s:%d:%d", f.Filepath, f.Line, f.Column))
+			}
+		} else {
+			for _, ln := range strings.Split(strings.TrimSuffix(buf.String(), "\n"), "\n") {
+				if ln == "" {
+					continue
+				}
+				m := matcherRE.FindStringSubmatch(ln)
+				if m == nil {
+					return "C16/oneline-line-not-matched-by-problem-matcher", fmt.Sprintf("several files: line %q", ln)
+				}
+				got = append(got, m[1]+":"+m[2]+":"+m[3])
+			}
+		}
+		if strings.Join(got, "\n") != strings.Join(want, "\n") {
+			return "C16/output-order-differs-from-returned-diagnostics", fmt.Sprintf("%s mode, files %v\nprinted:  %v\nreturned: %v", mode, c.Names, got, want)
+		}
+	}
+	return "", ""
 }
 
 func isPrintableASCII(s string) bool {
